@@ -1,7 +1,7 @@
 (* C02 -- st2tost2::convert (used when finding F22 is absent) (statements only; every proof is `exact` of lemmas generated and proved per component).
    Regenerate with mkprops.py when the operation registry of trace.cxx changes. *)
 From Coq Require Import Reals List.
-Require Import TensorIndex C02Spec C02_g0_n1_p0 C02_g0_n2_p0 C02_g0_n3_p0 C02_g0_n3_p1 C02_g1_n1_p0 C02_g1_n2_p0 C02_g1_n2_p1 C02_g1_n3_p0 C02_g1_n3_p1 C02_g1_n3_p2 C02_g1_n3_p3 C02_g1_n3_p4 C02_g2_n1_p0 C02_g2_n2_p0 C02_g2_n2_p1 C02_g2_n3_p0 C02_g2_n3_p1 C02_g2_n3_p2 C02_g2_n3_p3 C02_g3_n1_p0 C02_g3_n2_p0 C02_g3_n3_p0 C02_g3_n3_p1 C02_g3_n3_p2.
+Require Import TensorIndex C02Spec C02_g1_n1_p0 C02_g1_n2_p0 C02_g1_n2_p1 C02_g1_n3_p0 C02_g1_n3_p1 C02_g1_n3_p2 C02_g1_n3_p3 C02_g1_n3_p4.
 
 Import ListNotations.
 Local Open Scope R_scope.
